@@ -220,6 +220,8 @@ HOME=` + c25Home + `; set -f; unset a d
 				code = "set --; " + setV + "eval " + oracle.ShQuote("IFS= read -r -d '' R <<__E__\n"+t.S+"\n__E__")
 				if hasPid {
 					code += "; R=${R//$$/" + c25Pid + "}"
+				} else {
+					code += "; R=$R" // like the replacement above: leaves status 0 (read returns 1 at the end of the text)
 				}
 			case "Fields":
 				var out []string
@@ -244,6 +246,11 @@ HOME=` + c25Home + `; set -f; unset a d
 				}
 			default:
 				panic("bad fn " + t.Fn)
+			}
+			if strings.Contains(t.S, "${V:?") || strings.Contains(t.S, "${V?") {
+				// a failing ${V:?w} ends a non-interactive bash: evaluate in
+				// a subshell (the dot protects the trailing newline)
+				code = "R=$(" + code + `; printf '%s.' "$R") && R=${R%.}`
 			}
 			if shErr != nil {
 				c.Distinct(t.Fn + " error " + c25ErrKind(shErr))
